@@ -10,6 +10,16 @@ Enums == Shard.hdr.schema.enumcp
 VARIABLE i
 
 (* ---- C05: bp -> JSON -> reference ; reference -> JSON -> bp ---- *)
+\* the texts the reference emits under its printer options (proto names as keys, enum numbers, defaults printed): the spec must
+\* accept each as the same message (else the reference and the spec disagree: machinery) and so must from_json
+RECURSIVE VariantsClause(_, _, _)
+VariantsClause(e, want, j) ==
+  IF j > Len(e.variants) THEN <<"ok", "">>
+  ELSE LET v == e.variants[j]  a == AcceptJson(Idx, Enums, e.ty, v.tree) IN
+    IF ~a.ok \/ a.val # want THEN <<"ref_json_differs_from_spec_" \o v.name, IF a.ok THEN DiffFields(a.val, want) ELSE a.err>>
+    ELSE IF v.res # "ok" THEN <<"cannot_read_reference_json_" \o v.name \o "_" \o v.res, "">>
+    ELSE IF NormMsg(v.obs) # want THEN <<"reads_reference_json_as_other_value_" \o v.name, DiffFields(NormMsg(v.obs), want)>>
+    ELSE VariantsClause(e, want, j + 1)
 JsonClause(e) ==
   LET want == NormMsg(e.val) IN
   IF e.res # "ok" THEN <<"to_json_raises_" \o e.res, "">>
@@ -26,7 +36,7 @@ JsonClause(e) ==
         IF ~r.ok \/ r.val # want THEN <<"ref_json_differs_from_spec", IF r.ok THEN DiffFields(r.val, want) ELSE r.err>>
         ELSE IF e.bp_res2 # "ok" THEN <<"cannot_read_reference_json_" \o e.bp_res2, "">>
         ELSE IF NormMsg(e.bp_obs2) # want THEN <<"reads_reference_json_as_other_value", DiffFields(NormMsg(e.bp_obs2), want)>>
-        ELSE <<"ok", "">>
+        ELSE VariantsClause(e, want, 1)
 
 (* ---- C04: from_dict(to_dict(m)) / from_json(to_json(m)), both casings, both forms ---- *)
 RtJsonClause(e) ==
